@@ -184,38 +184,40 @@ var Epoch = time.Date(2031, 3, 1, 0, 0, 0, 0, time.UTC)
 type Profile struct {
 	JWTAccess bool `json:"jwt_access,omitempty"`
 	// StatelessJWTIntrospectionFirst registers the stateless JWT validator in front of the stateful one
-	StatelessJWTIntrospectionFirst bool     `json:"stateless_jwt_introspection_first,omitempty"`
-	RefreshScopes                  []string `json:"refresh_scopes"` // nil => fosite default? we always set explicitly
-	RefreshScopesUnset             bool     `json:"refresh_scopes_unset,omitempty"`
-	EnforcePKCE                    bool     `json:"enforce_pkce,omitempty"`
-	EnforcePKCEPublic              bool     `json:"enforce_pkce_public,omitempty"`
-	PKCEPlain                      bool     `json:"pkce_plain,omitempty"`
-	Tx                             bool     `json:"tx,omitempty"`
-	ContractDevice                 bool     `json:"contract_device,omitempty"`
-	Bcrypt                         bool     `json:"bcrypt,omitempty"`
-	ScopeStrategy                  string   `json:"scope_strategy,omitempty"` // "", exact, wildcard, hierarchic
-	AudStrategy                    string   `json:"aud_strategy,omitempty"`   // "", default, exact
-	DisableRTValidation            bool     `json:"disable_rt_validation,omitempty"`
-	PAREnforced                    bool     `json:"par_enforced,omitempty"`
-	PARPrefix                      string   `json:"par_prefix,omitempty"`
-	ATLifespan                     int      `json:"at_lifespan,omitempty"` // seconds; 0 => 3600
-	RTLifespan                     int      `json:"rt_lifespan,omitempty"` // seconds; 0 => 30 days; -1 unlimited
-	CodeLifespan                   int      `json:"code_lifespan,omitempty"`
-	IDKey                          string   `json:"id_key,omitempty"`         // key file for ID tokens / JWT ATs (default ec256a)
-	IDAlg                          string   `json:"id_alg,omitempty"`         // when set the key is handed to fosite as a JWK with this algorithm
-	Session                        string   `json:"session,omitempty"`        // session implementation handed to the library: "" (harness Sess), openid, jwt, default
-	DefaultConfig                  bool     `json:"default_config,omitempty"` // leave every lazily defaulted Config field unset
-	Debug                          bool     `json:"debug,omitempty"`
-	LegacyErrors                   bool     `json:"legacy_errors,omitempty"`
-	JWTBearerSkipAuth              bool     `json:"jwt_bearer_skip_auth,omitempty"`
-	JTIOptional                    bool     `json:"jti_optional,omitempty"`
-	IATOptional                    bool     `json:"iat_optional,omitempty"`
-	MinEntropy                     int      `json:"min_entropy,omitempty"`
-	GlobalSecret                   string   `json:"global_secret,omitempty"`
-	RotatedSecrets                 []string `json:"rotated_secrets,omitempty"`
-	TokenEntropy                   int      `json:"token_entropy,omitempty"`
-	HMACHash                       string   `json:"hmac_hash,omitempty"` // "", sha256, sha512
-	Seed                           uint64   `json:"seed,omitempty"`
+	StatelessJWTIntrospectionFirst bool `json:"stateless_jwt_introspection_first,omitempty"`
+	// StatelessJWTIntrospectionOnly: a resource-server style deployment, JWT access tokens judged by signature and claims only
+	StatelessJWTIntrospectionOnly bool     `json:"stateless_jwt_introspection_only,omitempty"`
+	RefreshScopes                 []string `json:"refresh_scopes"` // nil => fosite default? we always set explicitly
+	RefreshScopesUnset            bool     `json:"refresh_scopes_unset,omitempty"`
+	EnforcePKCE                   bool     `json:"enforce_pkce,omitempty"`
+	EnforcePKCEPublic             bool     `json:"enforce_pkce_public,omitempty"`
+	PKCEPlain                     bool     `json:"pkce_plain,omitempty"`
+	Tx                            bool     `json:"tx,omitempty"`
+	ContractDevice                bool     `json:"contract_device,omitempty"`
+	Bcrypt                        bool     `json:"bcrypt,omitempty"`
+	ScopeStrategy                 string   `json:"scope_strategy,omitempty"` // "", exact, wildcard, hierarchic
+	AudStrategy                   string   `json:"aud_strategy,omitempty"`   // "", default, exact
+	DisableRTValidation           bool     `json:"disable_rt_validation,omitempty"`
+	PAREnforced                   bool     `json:"par_enforced,omitempty"`
+	PARPrefix                     string   `json:"par_prefix,omitempty"`
+	ATLifespan                    int      `json:"at_lifespan,omitempty"` // seconds; 0 => 3600
+	RTLifespan                    int      `json:"rt_lifespan,omitempty"` // seconds; 0 => 30 days; -1 unlimited
+	CodeLifespan                  int      `json:"code_lifespan,omitempty"`
+	IDKey                         string   `json:"id_key,omitempty"`         // key file for ID tokens / JWT ATs (default ec256a)
+	IDAlg                         string   `json:"id_alg,omitempty"`         // when set the key is handed to fosite as a JWK with this algorithm
+	Session                       string   `json:"session,omitempty"`        // session implementation handed to the library: "" (harness Sess), openid, jwt, default
+	DefaultConfig                 bool     `json:"default_config,omitempty"` // leave every lazily defaulted Config field unset
+	Debug                         bool     `json:"debug,omitempty"`
+	LegacyErrors                  bool     `json:"legacy_errors,omitempty"`
+	JWTBearerSkipAuth             bool     `json:"jwt_bearer_skip_auth,omitempty"`
+	JTIOptional                   bool     `json:"jti_optional,omitempty"`
+	IATOptional                   bool     `json:"iat_optional,omitempty"`
+	MinEntropy                    int      `json:"min_entropy,omitempty"`
+	GlobalSecret                  string   `json:"global_secret,omitempty"`
+	RotatedSecrets                []string `json:"rotated_secrets,omitempty"`
+	TokenEntropy                  int      `json:"token_entropy,omitempty"`
+	HMACHash                      string   `json:"hmac_hash,omitempty"` // "", sha256, sha512
+	Seed                          uint64   `json:"seed,omitempty"`
 }
 
 type World struct {
@@ -415,6 +417,9 @@ func NewWorld(p Profile) *World {
 		// a permissive (signature-only) validator registered in front of the stateful one: every validator that knows
 		// the token must accept it
 		introspection = []compose.Factory{compose.OAuth2StatelessJWTIntrospectionFactory, compose.OAuth2TokenIntrospectionFactory}
+	}
+	if p.StatelessJWTIntrospectionOnly {
+		introspection = []compose.Factory{compose.OAuth2StatelessJWTIntrospectionFactory}
 	}
 	factories := []compose.Factory{
 		compose.OAuth2AuthorizeExplicitFactory,
